@@ -5,10 +5,10 @@ cd /repo || exit 9
 git diff --quiet || { echo "repo dirty"; exit 9; }
 git apply --check "$D/patch.diff" || { echo "patch does not apply"; exit 9; }
 git apply "$D/patch.diff"
-( cd "$D" && PYTHONPATH=/repo timeout 600 /venv/bin/python demo.py >/tmp/seed_demo.out 2>&1 ); DEMO_BAD=$?
+( cd ${DEMO_CWD:-$D} && PYTHONPATH=/repo timeout 600 /venv/bin/python $D/demo.py >/tmp/seed_demo.out 2>&1 ); DEMO_BAD=$?
 ( cd /verif && timeout 1500 ./check $P --tier $T >/tmp/seed_check.out 2>/tmp/seed_check.err ); CHK=$?
 git checkout -- .
-( cd "$D" && PYTHONPATH=/repo timeout 600 /venv/bin/python demo.py >/dev/null 2>&1 ); DEMO_OK=$?
+( cd ${DEMO_CWD:-$D} && PYTHONPATH=/repo timeout 600 /venv/bin/python $D/demo.py >/dev/null 2>&1 ); DEMO_OK=$?
 echo "seed=$D demo_with_patch=$DEMO_BAD demo_clean=$DEMO_OK check_exit=$CHK"
 grep -h "^VIOLATION\|^KNOWN" /tmp/seed_check.out | head -3
 grep -h "label=" /tmp/seed_check.err | head -2 | cut -c1-300
